@@ -2,7 +2,7 @@
    arithmetic, comparisons and field updates that tools/gen_gaplist.py reads from Stack.h / Stack.cpp on every
    run (Gen_Gaplist.v), and proved equal to the hand model GapList.v for EVERY state and argument.  The control
    skeleton (which list operation in which branch) is the template the translator matches the source against. *)
-From Coq Require Import ZArith List Bool Lia.
+From Coq Require Import ZArith List Bool Lia ZifyBool.
 From Adept Require Import GapList.
 From AdeptGen Require Import Gen_Gaplist.
 Import ListNotations.
@@ -67,13 +67,19 @@ Definition model_unregister_top (s : st) (idx n : Z) : option st :=
   if Z.eqb (idx + n) (ig s) then Some (unregisterN s idx n) else None.
 
 (* ------------------------------------------------------------------------------------------------------- *)
+(* the update of max_gradient_: judged by its value (the larger of the two), not by the shape of the test *)
+Lemma gen_max_is_bump : forall (cnd : Z -> Z -> bool) (val : Z -> Z -> Z) (i m : Z), (if cnd i m then val i m else m) = Z.max i m ->
+  gen_max cnd val i m = (if m <? i then i else m).
+Proof. intros cnd val i m H. unfold gen_max. rewrite H. destruct (Z.ltb_spec m i); lia. Qed.
+Ltac max_value := match goal with |- (if ?c then _ else _) = _ => destruct c eqn:? end; lia.
+
 Lemma gen_register1_eq : forall s, gen_register1 s = register1 s.
 Proof.
-  intros s. unfold gen_register1, register1, gen_max, bump_max, r1_top, r1_max_cond, r1_max_val, r1_count,
+  intros s. unfold gen_register1, register1, bump_max, r1_top, r1_count,
     r1_top_ret, r1_shrink, r1_closed, r1_gap_ret.
   destruct (gaps s) as [|[a b] rest].
   - replace (ig s + 1 - 1) with (ig s) by lia.
-    destruct (Z.gtb_spec (ig s + 1) (mg s)) as [H|H]; destruct (Z.ltb_spec (mg s) (ig s + 1)) as [H'|H']; try lia; reflexivity.
+    rewrite gen_max_is_bump by (unfold r1_max_cond, r1_max_val; max_value). reflexivity.
   - destruct (Z.gtb_spec (a + 1) b) as [H|H]; destruct (Z.ltb_spec b (a + 1)) as [H'|H']; try lia; reflexivity.
 Qed.
 
@@ -108,9 +114,9 @@ Proof.
     destruct f.
     + rewrite (proj1 Hf eq_refl). reflexivity.
     + destruct (Z.ltb n (b1 + 1 - a1)) eqn:E1; [discriminate (proj2 Hf eq_refl)|reflexivity].
-  - unfold gen_max, bump_max, rn_top, rn_max_cond, rn_max_val, rn_count, rn_top_ret.
+  - unfold bump_max, rn_top, rn_count, rn_top_ret.
     replace (ig s + n - n) with (ig s) by lia.
-    destruct (Z.gtb_spec (ig s + n) (mg s)) as [H1|H1]; destruct (Z.ltb_spec (mg s) (ig s + n)) as [H2|H2]; try lia; reflexivity.
+    rewrite gen_max_is_bump by (unfold rn_max_cond, rn_max_val; max_value). reflexivity.
 Qed.
 
 Lemma gen_unregisterN_top_eq : forall s idx n, gen_unregisterN_top n s idx = model_unregister_top s idx n.
